@@ -1,7 +1,9 @@
 package props
 
 import (
+	"voicheck/edt"
 	"fmt"
+	"golang.org/x/tools/go/ssa"
 	"sort"
 
 	"voicheck/easm"
@@ -46,6 +48,7 @@ func init() {
 			return
 		}
 		gst := run.Rule("GLOBAL-store", "no store to memory rooted at a package-level variable outside package initialisation (directly or through a written call argument)", 400).RequireControl(1)
+		lru := run.Rule("DT-lru", "the LRU cache stores a new entry holding exactly the given expanded key under the given key and evicts the oldest element's own entry exactly at capacity", 3)
 		shf := run.Rule("SHARED-fresh", "initialisers of shared precomputed types install freshly allocated tables and never write through a table pointer loaded from the object", 2)
 		shr := run.Rule("SHARED-readonly", "no function writes through a parameter of a shared precomputed type except that type's own initialisers", 60).RequireControl(1)
 		lacc := run.Rule("LOCK-access", "every access to a field of a mutex-containing struct holds the lock (or is in a constructor / a helper whose callers all hold it)", 8).RequireControl(1)
@@ -94,7 +97,8 @@ func init() {
 					shr.OK(name)
 					continue
 				}
-				if _, ok := sharedWriters[name]; ok {
+				if _, ok := sharedWriters[name]; ok || onlyCalledByInitialisers(p, u.Fn, 0) {
+					// the type's own initialiser, or an unexported helper that only initialisers call
 					shr.OK(name)
 					writers[name] = true
 					continue
@@ -102,6 +106,13 @@ func init() {
 				shr.Fail(p.Pos(u.Fn.Pos()), name, fmt.Sprintf("may write through its parameter #%d of shared type %s (only the type's own initialisers may)", u.Param, u.Type), nil)
 			}
 			checkSharedFresh(p, shf)
+			if id == c.Configs()[0] {
+				// sequential specification of the LRU cache (what "atomic" operations must do): same table as C09
+				ecfg := &edt.Config{P: p, Mod: m}
+				for _, s := range c09LRUSpecs() {
+					edt.Check(lru, ecfg, s)
+				}
+			}
 			// locks
 			lst := emod.CheckLocks(p, m, lacc, latm, ldbl)
 			cst := emod.CheckNoConcurrencyPrimitives(p, conc, map[string]string{
@@ -116,4 +127,29 @@ func init() {
 				"guarded field accesses": lst.Accesses, "externally callable methods": lst.Methods, "instructions scanned": cst.Instructions, "initialisers writing shared types": ws})
 		}
 	}
+}
+
+// onlyCalledByInitialisers: fn is unexported and every caller is a registered initialiser of a shared
+// type (or, recursively, such a helper): it is part of the initialiser.
+func onlyCalledByInitialisers(p *load.Program, fn *ssa.Function, depth int) bool {
+	if depth > 3 || fn.Object() == nil || fn.Object().Exported() {
+		return false
+	}
+	node := p.CallGraph().Nodes[fn]
+	if node == nil || len(node.In) == 0 {
+		return false
+	}
+	for _, in := range node.In {
+		caller := in.Caller.Func
+		if caller == nil {
+			return false
+		}
+		if _, ok := sharedWriters[load.FuncName(caller)]; ok {
+			continue
+		}
+		if !onlyCalledByInitialisers(p, caller, depth+1) {
+			return false
+		}
+	}
+	return true
 }
